@@ -6,3 +6,7 @@ cd "$(dirname "$0")/harness"
 export CARGO_NET_OFFLINE=true
 cargo build --release --offline
 ./target/release/fv selftest
+cd ../featdrv
+for v in "alloc,unicode:A" "unicode:B" "alloc:C"; do
+    cargo build --release --offline --features "${v%%:*}" --target-dir "target/${v##*:}"
+done
